@@ -437,6 +437,14 @@ STMTS = [
     "with m as v:\n  x = v",
     "x = [i for i in y]",
     "x = a and b or c",
+    "x = yield x",
+    "del x",
+    "assert c, x",
+    "match x:\n  case 1:\n    y = 1\n  case _:\n    y = 2",
+    "def g():\n  return x",
+    "x = lambda: y",
+    "x += 1",
+    "for i in y:\n  if c:\n    break\nelse:\n  x = 0",
 ]
 WRAPS = [
     "%s",
